@@ -128,9 +128,10 @@ def run(ck):
                     "cnorm": call(it, s, "compute_normalization", space),
                     "part": call(it, rbm_am, "partition", space),
                     "E": call(it, rbm_am, "effective_energy", space),
+                    "R_am": role_terms(it, rbm_am),
                 }
 
-            paths = paths_of(prog, th)
+            paths = paths_of(prog, th, sticky=True, max_paths=80)
             ck.note_functions(functions_in_paths(paths))
             for p in returning(paths, inst):
                 if shape_err_verdict(ck, "C01.R5", inst, paths):
@@ -149,6 +150,11 @@ def run(ck):
                     ck.check(o["cnorm"].term == part, "C01.R5", inst + ":compute_normalization", prog.method(cls, "compute_normalization").site(),
                              "compute_normalization(space) is not normalization(space)")
                     ck.check(o["part"].shape == (), "C01.R5", inst + ":scalar", site, "partition is not a scalar: %s" % (o["part"].shape,))
+                    # R6: the normalisation depends on every amplitude parameter (and on nothing of the phase network)
+                    am = {t.single_atom().name for t in o["R_am"].values()}
+                    got = o["norm"].term.syms() if o["norm"].term is not None else None
+                    ck.check(None if got is None else got == am | {"space"}, "C01.R6", inst + ":normalization deps [%s]" % path_tag(p), prog.method(cls, "normalization").site(),
+                             "normalization depends on %s; expected exactly %s" % (sorted(got or []), sorted(am | {"space"})))
     ck.require_min("C01.R1", 16)
     ck.require_min("C01.R2", 8)
     ck.require_min("C01.R3", 2)
